@@ -10,6 +10,7 @@ small sets) x interleavings of several tasks.
 import itertools
 
 from hypothesis import strategies as st
+from pyrsistent import pmap
 
 from ..core import Facet, Violation, require, canon, setup_path
 from .. import reftree
@@ -190,7 +191,11 @@ def check_messages(tasks_msgs, orders, subsets, perm_limit, subset_limit):
                         info["desc_before_anc"] = True
                         break
             try:
-                completed, parser = parser.add(m)
+                completed, parser = parser.add(pmap(m) if nperm % 4 == 3 else m)
+                if isinstance(completed, list):
+                    raw_list = completed
+                    completed = list(raw_list)
+                    raw_list.append("the caller's own entry")
             except Exception as e:
                 raise Violation("parser-raised", "Parser.add raised %r on order %r at message %r" % (e, list(perm), m))
             last = seen[u] == size[u]
